@@ -24,6 +24,7 @@ import (
 	"fmt"
 	"math/rand"
 	"os"
+	"sort"
 	"strings"
 
 	blsu "github.com/protolambda/bls12-381-util"
@@ -307,24 +308,33 @@ type answers struct {
 }
 
 type event struct {
-	Ev       string            `json:"ev"`
-	Chain    int               `json:"chain"`
-	Kind     string            `json:"kind"`
-	Fork     string            `json:"fork"`
-	P        Preset            `json:"P"`
-	Slot     int               `json:"slot"`
-	Vals     [][]int           `json:"vals"` // [activation, exit, effective balance, slashed]
-	Mixes    [][]int           `json:"mixes"`
-	H        []pair            `json:"H"`
-	Epcs     []answers         `json:"epcs"`
-	HasSync  bool              `json:"has_sync"`
-	Boundary string            `json:"boundary"` // "upgrade" | "rotate" | "" : stored sync committees were produced right now
-	NewChain bool              `json:"new_chain"`
-	StoreCur []int             `json:"state_sync_cur"`  // state's current_sync_committee pubkeys as validator indices
-	StoreNxt []int             `json:"state_sync_next"` //
-	Direct   []int             `json:"sync_direct"`     // ComputeSyncCommitteeIndices(spec, state, cur+1, active(cur+1))
-	DirectE  string            `json:"sync_direct_err,omitempty"`
-	Note     map[string]string `json:"note,omitempty"`
+	Ev       string    `json:"ev"`
+	Chain    int       `json:"chain"`
+	Kind     string    `json:"kind"`
+	Fork     string    `json:"fork"`
+	P        Preset    `json:"P"`
+	Slot     int       `json:"slot"`
+	Vals     [][]int   `json:"vals"` // [activation, exit, effective balance, slashed]
+	Mixes    [][]int   `json:"mixes"`
+	H        []pair    `json:"H"`
+	Epcs     []answers `json:"epcs"`
+	HasSync  bool      `json:"has_sync"`
+	Boundary string    `json:"boundary"` // "upgrade" | "rotate" | "" : stored sync committees were produced right now
+	NewChain bool      `json:"new_chain"`
+	StoreCur []int     `json:"state_sync_cur"`  // state's current_sync_committee pubkeys as validator indices
+	StoreNxt []int     `json:"state_sync_next"` //
+	Direct   []int     `json:"sync_direct"`     // ComputeSyncCommitteeIndices(spec, state, cur+1, active(cur+1))
+	DirectE  string    `json:"sync_direct_err,omitempty"`
+	// aggregate public keys (48 bytes as ints; [] when absent): of the state's stored committees and of
+	// IndicesToSyncCommittee(sync_direct) -- the committee get_next_sync_committee(state) returns
+	StoreCurAgg []int `json:"state_sync_cur_agg"`
+	StoreNxtAgg []int `json:"state_sync_next_agg"`
+	DirectAgg   []int `json:"sync_direct_agg"`
+	// BLS oracle: eth_aggregate_pubkeys over a list of seats is a function of the BAG of seat holders; entries
+	// <<sorted seat list with repetitions, aggregate>> computed by the harness with blsu.AggregatePubkeys from the
+	// registry's pubkeys (one entry per seat list that occurs in this event)
+	AggOracle [][2][]int        `json:"agg_oracle"`
+	Note      map[string]string `json:"note,omitempty"`
 }
 
 func ints(bs []byte) []int {
@@ -617,6 +627,7 @@ func projectState(spec *common.Spec, p Preset, st common.BeaconState) (ev event,
 		ev.Mixes = append(ev.Mixes, ints(m[:]))
 	}
 	ev.StoreCur, ev.StoreNxt, ev.Direct = []int{}, []int{}, []int{}
+	ev.StoreCurAgg, ev.StoreNxtAgg, ev.DirectAgg, ev.AggOracle = []int{}, []int{}, []int{}, [][2][]int{}
 	if ss, ok := st.(common.SyncCommitteeBeaconState); ok {
 		ev.HasSync = true
 		for k, get := range []func() (*common.SyncCommitteeView, error){ss.CurrentSyncCommittee, ss.NextSyncCommittee} {
@@ -640,10 +651,14 @@ func projectState(spec *common.Spec, p Preset, st common.BeaconState) (ev event,
 				}
 				idxs = append(idxs, i)
 			}
+			agg, err := scv.AggregatePubkey()
+			if err != nil {
+				return ev, nil, err
+			}
 			if k == 0 {
-				ev.StoreCur = idxs
+				ev.StoreCur, ev.StoreCurAgg = idxs, ints(agg[:])
 			} else {
-				ev.StoreNxt = idxs
+				ev.StoreNxt, ev.StoreNxtAgg = idxs, ints(agg[:])
 			}
 		}
 	}
@@ -670,11 +685,68 @@ func directSync(spec *common.Spec, st common.BeaconState, ev *event) {
 			return err
 		}
 		ev.Direct = idxInts(out)
+		pc, err := common.NewPubkeyCache(vals)
+		if err != nil {
+			return err
+		}
+		sc, err := common.IndicesToSyncCommittee(out, pc)
+		if err != nil {
+			return err
+		}
+		ev.DirectAgg = ints(sc.AggregatePubkey[:])
 		return nil
 	})
 	if err != nil {
 		ev.DirectE = err.Error()
 	}
+}
+
+// aggOracle: the BLS oracle entries for the seat lists of this event: aggregate (blsu.AggregatePubkeys, repetitions
+// included, keys read from the state's registry) keyed by the sorted seat list.
+func aggOracle(st common.BeaconState, seatLists ...[]int) ([][2][]int, error) {
+	st = unwrap(st)
+	vals, err := st.Validators()
+	if err != nil {
+		return nil, err
+	}
+	out := [][2][]int{}
+	seen := map[string]bool{}
+	for _, seats := range seatLists {
+		if len(seats) == 0 {
+			continue
+		}
+		bag := append([]int{}, seats...)
+		sort.Ints(bag)
+		key := fmt.Sprint(bag)
+		if seen[key] || bag[0] < 0 {
+			continue
+		}
+		seen[key] = true
+		pubs := make([]*blsu.Pubkey, 0, len(bag))
+		for _, i := range bag {
+			v, err := vals.Validator(common.ValidatorIndex(i))
+			if err != nil {
+				return nil, err
+			}
+			pk, err := v.Pubkey()
+			if err != nil {
+				return nil, err
+			}
+			var bp blsu.Pubkey
+			raw := [48]byte(pk)
+			if err := bp.Deserialize(&raw); err != nil {
+				return nil, err
+			}
+			pubs = append(pubs, &bp)
+		}
+		agg, err := blsu.AggregatePubkeys(pubs)
+		if err != nil {
+			return nil, err
+		}
+		ser := agg.Serialize()
+		out = append(out, [2][]int{bag, ints(ser[:])})
+	}
+	return out, nil
 }
 
 func recordState(spec *common.Spec, p Preset, st common.BeaconState, running *common.EpochsContext, chain int, kind, boundary string, newChain bool) (event, error) {
@@ -714,6 +786,9 @@ func recordState(spec *common.Spec, p Preset, st common.BeaconState, running *co
 		ev.Epcs = append(ev.Epcs, epcAnswers(spec, running, uint64(ev.Slot), "running"))
 	}
 	directSync(spec, st, &ev)
+	if ev.AggOracle, err = aggOracle(st, ev.StoreCur, ev.StoreNxt, ev.Direct); err != nil {
+		return ev, err
+	}
 	return ev, nil
 }
 
@@ -1322,6 +1397,11 @@ func replay(casesPath, resultPath string) error {
 			add("ComputeSyncCommitteeIndices", direct.DirectE, nil, c.Sync)
 		} else if !jsonEq(direct.Direct, c.Sync) {
 			add("ComputeSyncCommitteeIndices", "next sync committee indices differ from the specification", direct.Direct, c.Sync)
+		} else if orc, err := aggOracle(st, c.Sync); err != nil {
+			return fmt.Errorf("line %d aggregate oracle: %v", line, err)
+		} else if len(orc) == 1 && !jsonEq(orc[0][1], direct.DirectAgg) {
+			// eth_aggregate_pubkeys over the specification's seat list (repetitions included), computed by the harness
+			add("IndicesToSyncCommittee", "aggregate_pubkey is not the aggregate of the seats' keys (with repetitions)", direct.DirectAgg, orc[0][1])
 		}
 	}
 	if err := sc.Err(); err != nil {
